@@ -409,4 +409,36 @@ example : parseChunked 9 (chunkedBody [97, 98, 99]) = some [97, 98, 99] := by de
 example : chunkedBody [] = [48, 13, 10, 13, 10] := by decide
 example : hexNat 255 = [102, 102] ∧ hexNat 0 = [48] ∧ hexNat 4096 = [49, 48, 48, 48] := by decide
 
+
+/-! ## round 6: the transfer-coding test is case-insensitive -/
+
+private theorem asciiLowerB_idem_fin : ∀ n : Fin 256, asciiLowerB (asciiLowerB (UInt8.ofNat n.val)) = asciiLowerB (UInt8.ofNat n.val) := by
+  decide +kernel
+
+private theorem asciiLower_idem (v : Bytes) : asciiLower (asciiLower v) = asciiLower v := by
+  unfold asciiLower
+  induction v with
+  | nil => rfl
+  | cons c r ih =>
+    have := asciiLowerB_idem_fin ⟨c.toNat, UInt8.toNat_lt c⟩
+    simp only [List.map_cons, List.map_map] at ih ⊢
+    simp at this
+    simp [this, ih]
+
+/-- **`Chunked`, `CHUNKED`, `gzip, Chunked` … frame the body like `chunked`**: whether `assemble_request` chunk-frames a
+    request with one Transfer-Encoding line depends only on the lower-cased value (and not on the case of the field name) -/
+theorem isChunked_case_insensitive (n v : Bytes) : isChunked [(n, v)] = isChunked [(asciiLower n, asciiLower v)] := by
+  unfold isChunked getJoined lname
+  by_cases h : asciiLower n = [116, 114, 97, 110, 115, 102, 101, 114, 45, 101, 110, 99, 111, 100, 105, 110, 103]
+  · have hn : asciiLower [116, 114, 97, 110, 115, 102, 101, 114, 45, 101, 110, 99, 111, 100, 105, 110, 103] =
+        [116, 114, 97, 110, 115, 102, 101, 114, 45, 101, 110, 99, 111, 100, 105, 110, 103] := by decide
+    simp [h, hn, asciiLower_idem]
+  · simp [h, asciiLower_idem]
+
+example : isChunked [([84, 69], [67, 104, 117, 110, 107, 101, 100])] = false := by decide      -- other field name
+example : isChunked [([116, 114, 97, 110, 115, 102, 101, 114, 45, 101, 110, 99, 111, 100, 105, 110, 103], [67, 104, 117, 110, 107, 101, 100])] = true := by
+  decide                                                                                          -- "Chunked"
+example : isChunked [([84, 114, 97, 110, 115, 102, 101, 114, 45, 69, 110, 99, 111, 100, 105, 110, 103],
+    [103, 122, 105, 112, 44, 32, 67, 72, 85, 78, 75, 69, 68])] = true := by decide                 -- Transfer-Encoding: gzip, CHUNKED
+
 end MitmVerif.Props.C48
